@@ -70,11 +70,16 @@ def run_family(ctx, steps):
     tot0 = int(O["n"].nest.flat_length)
     fam["VAL"] = np.arange(tot0, dtype=np.float64) + 7000.0
     fam["SVAL"] = pd.Series(np.arange(tot0, dtype=np.float64) + 8000.0, index=O["n"].nest.get_flat_index(), name="sval")
+    # the same with timestamps (numpy datetime64 memory, which Arrow can wrap without a copy just like numbers)
+    fam["TVAL"] = np.datetime64("2020-01-01", "ns") + np.arange(tot0).astype("timedelta64[s]")
+    fam["STVAL"] = pd.Series(np.datetime64("2021-06-01", "ns") + np.arange(tot0).astype("timedelta64[s]"),
+                             index=O["n"].nest.get_flat_index(), name="stval")
     fam["R"] = O.add_nested(A, "m")
     hist = [{"start": s.desc(), "labels": labels, "flat_labels": flab}]
 
     def total(fr):
         return int(fr["n"].nest.flat_length) if isinstance(fr, pd.DataFrame) else int(fr.nest.flat_length)
+    last_arg = [None]
     for step in range(steps):
         before = {k: snap(v) for k, v in fam.items()}
         kind = rng.choice(["pure", "pure", "inplace_array", "inplace_frame", "arg_edit"])
@@ -88,13 +93,18 @@ def run_family(ctx, steps):
                 k_fam = getattr(ctx, "_families", 0)
                 ctx._families = k_fam + 1
                 forced = ["sort_with_arg_lists", "dropna_with_arg_list", "take_with_arg_positions", "from_flat_on_with_arg_list",
-                          "with_flat_arg", "setitem_field_arg", "pack_seq_nested_series", "add_nested_series"][k_fam % 8]
+                          "with_flat_arg", "setitem_field_arg", "pack_seq_nested_series", "add_nested_series",
+                          "eval_multiline", "with_flat_arg"][k_fam % 10]
                 kind = "pure"
+                desc["kind"] = kind
+            elif step == 1 and last_arg[0]:
+                # ... and the caller changes that very object right afterwards
+                kind = "arg_edit"
                 desc["kind"] = kind
             if kind == "pure":
                 tname = rng.choice(frames) if forced is None else "O"
                 X = fam[tname]
-                op = forced or rng.choice(["query", "eval", "eval_assign", "sort", "dropna", "add_nested", "add_nested_series", "add_nested_series",
+                op = forced or rng.choice(["query", "eval", "eval_assign", "eval_multiline", "sort", "dropna", "add_nested", "add_nested_series", "add_nested_series",
                                  "reduce", "with_flat", "with_flat_arg", "with_flat_arg", "setitem_field_arg", "without",
                                  "pack_nested_series", "pack_seq_nested_series", "from_flat_on_with_arg_list",
                                  "to_parquet", "to_flat", "from_flat", "pack", "setitem_series_new_nest", "nest_lists", "take",
@@ -109,6 +119,11 @@ def run_family(ctx, steps):
                     new = X.eval("n.a * 2")
                 elif op == "eval_assign":
                     new = X.eval("n.c = n.a * 2")
+                elif op == "eval_multiline":
+                    # several statements, not in place: a base column is overwritten, a nested field added
+                    bc = "x" if "x" in X.columns else "k"
+                    new = X.eval(rng.choice([f"{bc} = {bc} + 10\nn.c = n.a * 2", f"n.c = n.a * 2\n{bc} = {bc} * 3",
+                                             f"{bc} = {bc} + 1\n{bc} = {bc} * 2"]))
                 elif op == "sort":
                     new = X.sort_values("n.b", ascending=False)
                 elif op == "dropna":
@@ -124,14 +139,18 @@ def run_family(ctx, steps):
                 elif op == "with_flat_arg":
                     # the caller's own array / Series as the new field (only frames that still have O's records)
                     if total(X) == len(fam["VAL"]) and len(X) == len(fam["O"]):
-                        v = fam[rng.choice(["VAL", "SVAL"])]
-                        new = X["n"].nest.with_flat_field(rng.choice(["zv", "a"]), v if isinstance(v, np.ndarray) or
+                        vn = rng.choice(["VAL", "SVAL", "TVAL", "STVAL"])
+                        v = fam[vn]
+                        last_arg[0] = vn
+                        new = X["n"].nest.with_flat_field(rng.choice(["zv", "a"]) if "T" not in vn else "zt", v if isinstance(v, np.ndarray) or
                                                           X["n"].nest.get_flat_index().equals(v.index) else v.to_numpy())
                 elif op == "setitem_field_arg":
                     if total(X) == len(fam["VAL"]) and len(X) == len(fam["O"]):
                         Y = X.copy()
-                        v = fam[rng.choice(["VAL", "SVAL"])]
-                        Y[f"n.{rng.choice(['zv', 'a'])}"] = v if isinstance(v, np.ndarray) or Y["n"].nest.get_flat_index().equals(v.index) else v.to_numpy()
+                        vn = rng.choice(["VAL", "SVAL", "TVAL", "STVAL"])
+                        v = fam[vn]
+                        last_arg[0] = vn
+                        Y[f"n.{rng.choice(['zv', 'a']) if 'T' not in vn else 'zt'}"] = v if isinstance(v, np.ndarray) or Y["n"].nest.get_flat_index().equals(v.index) else v.to_numpy()
                         new = Y
                 elif op == "without":
                     new = X["n"].nest.without_field("b")
@@ -249,7 +268,7 @@ def run_family(ctx, steps):
                 else:
                     X["newn.w"] = fam["ser_arg"]
             else:
-                which = rng.choice(["A", "VAL", "SVAL"])
+                which = last_arg[0] if (step == 1 and last_arg[0]) else rng.choice(["A", "VAL", "SVAL", "TVAL", "STVAL"])
                 may_change = {which}
                 if which == "A":
                     desc.update(target="A", op="iloc_set")
@@ -260,8 +279,12 @@ def run_family(ctx, steps):
                     desc.update(target=which, op="values_set")
                     if which == "VAL":
                         fam["VAL"][rng.randrange(len(fam["VAL"]))] = -999.0
-                    else:
+                    elif which == "SVAL":
                         fam["SVAL"].iloc[rng.randrange(len(fam["SVAL"]))] = -999.0
+                    elif which == "TVAL":
+                        fam["TVAL"][rng.randrange(len(fam["TVAL"]))] = np.datetime64("1999-12-31", "ns")
+                    else:
+                        fam["STVAL"].iloc[rng.randrange(len(fam["STVAL"]))] = pd.Timestamp("1999-12-31")
         except Exception as e:  # noqa: BLE001  (a refused operation must not change anything either)
             desc["raised"] = f"{type(e).__name__}: {str(e)[:80]}"
             if kind in ("inplace_array", "inplace_frame"):
